@@ -533,6 +533,10 @@ class Translator:
                         if prog or env.phi is not None or env.grids:
                             raise Refuse('sibling model called after other operations')
                         vals = [self.expr(e, env, mod) for e in v.args[0].elts]
+                        if depth == st['depth0']:
+                            # provenance (used by the mutation-adequacy analysis of C15 only): this model is a wrapper,
+                            # its program is the callee's program with the callee's parameters replaced by `vals`
+                            st['calls'] = {'file': m2.rel, 'name': fn.name, 'vals': vals, 'multi': 'calls' in st}
                         sub = self.function(m2, fn, vals, st, depth + 1)
                         return sub
                     raise Refuse('return of %s' % ast.unparse(v)[:60])
@@ -679,7 +683,7 @@ class Translator:
         last = prog
         return {'name': name, 'file': rel, 'kind': kind, 'param_names': mod.param_names[name],
                 'unpacked': st['unpacked'] or [], 'unpack_names': st.get('unpack_names') or [],
-                'index_style': bool(st.get('index_style')), 'prog': prog, 'lineno': fn.lineno}
+                'index_style': bool(st.get('index_style')), 'prog': prog, 'lineno': fn.lineno, 'calls': st.get('calls')}
 
     def all_models(self):
         """[(file, name)] of every function carrying __param_names__, in source order"""
